@@ -1,6 +1,6 @@
 """C01 — every layer-based backend applies exactly the layered Kronecker product.
 
-Lean: QG.Props.C01 (standard_spec / efficient_spec / ones_spec and corollaries) about QG.Model.Backend.
+Lean: QG.Props.C01 (standard_spec / efficient_spec / ones_spec, binary_layer_spec and corollaries) about QG.Model.Backend.
 Tie:  hand-written model + exact differential correspondence through drv_c01
       (i)  plans  n = 1..26: the real `_chunk_list`, and the real regime code with `oe.contract` replaced by a recorder
            (contraction string, operand shapes, operand values = Kronecker product of which layer entries);
@@ -592,8 +592,11 @@ def main(ctx):
         "1 <= min_chunk_size <= optimal_chunk_size; the code's own documented limit of 26 contraction letters "
         "(<= 13 operands in EfficientBackend, <= 26 matrices per layer in BackendForOnes) is a hypothesis",
         "'input vector left unmodified' is an aliasing statement: observed by the harness (bytes before/after), not a theorem",
-        "the index-based backend is checked against the oracle with the optimizer bypassed (backend.py's own operator "
-        "construction); disagreements that appear only with the optimizer are C02's (counted as blocked, not reported here)",
+        "the index-based clause is the theorem binary_layer_spec (C02's binary_spec + the embed/kron bridge) about C02's model of "
+        "BinaryBackend (tied to the code by C02's correspondence); here the real BinaryBackend is additionally run on the item "
+        "lists (whose qubits are compared with the model's itemQubits) against the oracle, with the optimizer bypassed "
+        "(backend.py's own operator construction); disagreements that appear only with the optimizer are C02's (counted as "
+        "blocked, not reported here)",
         "exact comparison uses integer-valued complex128 data with all partial sums below 2^50; floating-point rounding "
         "is outside the theorems",
     ]
